@@ -442,8 +442,10 @@ func scenarios(tier string, yield func(any) bool) {
 	}
 	if os.Getenv("VERIF_C09_SUBSET") == "xtalk" {
 		// as the datagram part of C08: two clients whose datagrams are in flight together
-		modes = []Scn{{Mode: "echo"}, {Mode: "readk", K: 2}}
-		scripts = []string{"AB", "ABA", "ABAB", "AAB"}
+		modes = []Scn{{Mode: "echo"}, {Mode: "readk", K: 2}, {Mode: "readk", K: 1}}
+		// ... and a client whose association ends and is replaced while its datagrams keep
+		// coming: the replacement must not be disturbed by the old one's close notifications
+		scripts = []string{"AB", "ABA", "ABAB", "AAB", "AAA", "AAAB"}
 	}
 	if os.Getenv("VERIF_C09_SUBSET") == "smallchan" {
 		// built with every channel of the datagram loop shrunk to capacity 1 (overlay): a burst
